@@ -43,9 +43,11 @@ enum Act : uint8_t {
   A_NESTED_CTS,
   A_GATE, // spins until the harness releases the gate tasks
   A_PROGRAM, // runs program k on the executing thread
+  A_CHAIN, // recursion chain for the inline-depth cap (h_pool_depth.cpp)
+  A_TS_CHAIN_OWNER, // pool task that owns a TaskSet and starts a chain in it
   A_PHASED, // waits for phase 1, force-queues one child, waits for phase 2 (scripted shutdown race)
 };
-enum : uint8_t { F_FQ = 1, F_FUT = 2, F_CHILD = 4, F_GATE = 8, F_PROBE = 16, F_CONT = 32 };
+enum : uint8_t { F_FQ = 1, F_FUT = 2, F_CHILD = 4, F_GATE = 8, F_PROBE = 16, F_CONT = 32, F_ROOT = 64 };
 
 // where a body ran
 enum Cls : uint8_t {
@@ -65,7 +67,7 @@ extern const char* const kClsNames[C_NCLS];
 // of each body
 struct SetMon {
   std::atomic<long> sched{0}, done{0};
-  void* set = nullptr; // the set itself (for self-recursion); only ConcurrentTaskSet
+  void* set = nullptr; // the set itself (for self-recursion): ConcurrentTaskSet, or TaskSet for chains run by its owner thread
   int kind = 0; // 1 TaskSet, 2 ConcurrentTaskSet heavy, 3 ConcurrentTaskSet lightweight
 };
 
@@ -135,6 +137,7 @@ struct Program {
 struct ThreadLocalState {
   int role = 0; // 0 = not a harness thread (pool worker), 1 = harness thread
   int inSubmit = 0, inWait = 0, inDtor = 0, inResize = 0;
+  int chainNest = 0; // chain bodies currently on this thread's stack
   struct Range {
     uint32_t lo, hi;
   } fq[64];
@@ -223,6 +226,8 @@ void subTsBulk(dispenso::ConcurrentTaskSet& s, uint32_t base, uint32_t n, const 
 void subTsBulkFQ(dispenso::TaskSet& s, uint32_t base, uint32_t n, const Task& proto);
 void subTsBulkFQ(dispenso::ConcurrentTaskSet& s, uint32_t base, uint32_t n, const Task& proto);
 void runKids(const Task& t); // the child-spawning part of a body
+void runChain(const Task& t); // h_pool_depth.cpp
+void runTsChainOwner(const Task& t); // h_pool_depth.cpp
 
 // ---- futures / parallel_for (h_pool_fut.cpp)
 struct FutBox;
